@@ -1,4 +1,4 @@
-package core
+package c13
 
 import (
 	"bufio"
@@ -14,6 +14,7 @@ import (
 	"testing"
 
 	"github.com/redis/rueidis"
+	"verifh/drv"
 	"verifh/mon"
 	"verifh/resp"
 )
@@ -104,7 +105,7 @@ const c13AllocFactor, c13AllocSlack = 64, 4 << 20
 
 // decodeOnce runs one decode under recover and reports what happened.
 func c13DecodeOnce(in []byte, stream bool, sizes []int) (status string, alloc uint64) {
-	r := bufio.NewReaderSize(&chunkReader{data: in, sizes: sizes}, 64)
+	r := bufio.NewReaderSize(&drv.ChunkReader{Data: in, Sizes: sizes}, 64)
 	var ms0, ms1 runtime.MemStats
 	runtime.ReadMemStats(&ms0)
 	func() {
@@ -142,7 +143,7 @@ func isRedisErr(err error) bool { _, ok := rueidis.IsRedisErr(err); return ok }
 
 // TestC13Child is the crash-isolated worker: it decodes inputs [from, to) of the file and logs B/E lines.
 func TestC13Child(t *testing.T) {
-	if !isChild() {
+	if !drv.IsChild() {
 		t.Skip("child only")
 	}
 	_ = syscall.Setrlimit(syscall.RLIMIT_AS, &syscall.Rlimit{Cur: 12 << 30, Max: 12 << 30})
@@ -169,7 +170,7 @@ func readFile(t *testing.T, p string) string {
 
 // C13: decoding any byte sequence returns a value or an error: no panic, no fatal error, no allocation far beyond the bytes received.
 func TestC13(t *testing.T) {
-	if isChild() {
+	if drv.IsChild() {
 		t.Skip()
 	}
 	run := mon.Start(t, "C13", "exploration",
@@ -194,7 +195,7 @@ func TestC13(t *testing.T) {
 	}
 	from := 0
 	for from < len(inputs) {
-		out, cerr := runChild("TestC13Child", map[string]string{"VERIF_INPUTS": file, "VERIF_FROM": strconv.Itoa(from)}, 4096)
+		out, cerr := drv.RunChild("TestC13Child", map[string]string{"VERIF_INPUTS": file, "VERIF_FROM": strconv.Itoa(from)}, 4096)
 		last, lastMode, open := -1, 0, false
 		done := false
 		for _, line := range strings.Split(out, "\n") {
@@ -217,15 +218,15 @@ func TestC13(t *testing.T) {
 				if mode == 0 {
 					run.Case(string(in), st != "ok")
 					if i%1500 == 0 {
-						run.Sample(map[string]any{"input": hexs(in), "result": st, "alloc_bytes": alloc})
+						run.Sample(map[string]any{"input": drv.Hexs(in), "result": st, "alloc_bytes": alloc})
 					}
 				}
 				run.Observe("result_"+strings.SplitN(st, ":", 2)[0], 1)
 				if strings.HasPrefix(st, "panic") {
-					run.Violation("panic", fmt.Sprintf("mode=%d input=%s", mode, hexs(in)), map[string]any{"input": hexs(in), "mode": mode, "panic": st})
+					run.Violation("panic", fmt.Sprintf("mode=%d input=%s", mode, drv.Hexs(in)), map[string]any{"input": drv.Hexs(in), "mode": mode, "panic": st})
 				}
 				if alloc > uint64(c13AllocFactor*len(in)+c13AllocSlack) {
-					run.Violation("over-allocation", fmt.Sprintf("mode=%d input=%s", mode, hexs(trunc(in, 120))), map[string]any{"input": hexs(trunc(in, 400)), "input_len": len(in), "mode": mode, "alloc_bytes": alloc})
+					run.Violation("over-allocation", fmt.Sprintf("mode=%d input=%s", mode, drv.Hexs(drv.Trunc(in, 120))), map[string]any{"input": drv.Hexs(drv.Trunc(in, 400)), "input_len": len(in), "mode": mode, "alloc_bytes": alloc})
 				}
 			}
 		}
@@ -234,26 +235,12 @@ func TestC13(t *testing.T) {
 		}
 		if !open || last < from {
 			run.Inconclusive("child ended without progress")
-			fmt.Printf("BROKEN property=C13 child made no progress from %d: %v\n%s\n", from, cerr, tail(out, 2000))
+			fmt.Printf("BROKEN property=C13 child made no progress from %d: %v\n%s\n", from, cerr, drv.Tail(out, 2000))
 			t.Fatalf("child made no progress")
 		}
 		// the child died inside input `last`
 		run.Observe("process_deaths", 1)
-		run.Violation("process-death", fmt.Sprintf("mode=%d input=%s", lastMode, hexs(trunc(inputs[last], 120))), map[string]any{"input": hexs(trunc(inputs[last], 400)), "input_len": len(inputs[last]), "mode": lastMode, "child_tail": tail(out, 1500)})
+		run.Violation("process-death", fmt.Sprintf("mode=%d input=%s", lastMode, drv.Hexs(drv.Trunc(inputs[last], 120))), map[string]any{"input": drv.Hexs(drv.Trunc(inputs[last], 400)), "input_len": len(inputs[last]), "mode": lastMode, "child_tail": drv.Tail(out, 1500)})
 		from = last + 1
 	}
-}
-
-func trunc(b []byte, n int) []byte {
-	if len(b) > n {
-		return b[:n]
-	}
-	return b
-}
-
-func tail(s string, n int) string {
-	if len(s) > n {
-		return s[len(s)-n:]
-	}
-	return s
 }
